@@ -280,6 +280,64 @@ def verdict_part(chk, quick):
     chk.sample({"verdict_families": list(fams), "arrangements": len(jobs)})
 
 
+def literal_pairs():
+    """(name, reference model text, respelled model text): the two texts differ in the spelling of one literal or scalar only."""
+    rec = lambda body: "R: !record\n  fields:\n%s" % body + "P: !protocol\n  sequence:\n    r: R\n"
+    comp = lambda e: "R: !record\n  fields:\n    a: int\n  computedFields:\n    n: %s\nP: !protocol\n  sequence:\n    r: R\n" % e
+    return [
+        ("array-length-hex-shorthand", rec("    a: int[16]\n"), rec("    a: int[0x10]\n")),
+        ("array-length-hex-expanded", rec("    a: !array {items: int, dimensions: [16]}\n"), rec("    a: !array {items: int, dimensions: [0x10]}\n")),
+        ("array-length-octal-expanded", rec("    a: !array {items: int, dimensions: [8]}\n"), rec("    a: !array {items: int, dimensions: [0o10]}\n")),
+        ("vector-length-hex-shorthand", rec("    a: int*16\n"), rec("    a: int*0x10\n")),
+        ("vector-length-hex-expanded", rec("    a: !vector {items: int, length: 16}\n"), rec("    a: !vector {items: int, length: 0x10}\n")),
+        ("vector-length-underscore", rec("    a: !vector {items: int, length: 1000}\n"), rec("    a: !vector {items: int, length: 1_000}\n")),
+        ("named-dimension-length-hex", rec("    a: !array {items: int, dimensions: {x: 16, y: 2}}\n"), rec("    a: !array {items: int, dimensions: {x: 0x10, y: 2}}\n")),
+        ("expression-literal-block-scalar", comp("a + 1"), comp("|\n      a + 1")),
+        ("expression-folded-block-scalar", comp("a + 1"), comp(">\n      a + 1")),
+        ("expression-quoted", comp("a + 1"), comp('"a + 1"')),
+        ("expression-hex-literal", comp("a + 16"), comp("a + 0x10")),
+        ("array-length-hex-shorthand-vs-expanded", rec("    a: !array {items: int, dimensions: [0x10]}\n"), rec("    a: int[0x10]\n")),
+        ("vector-length-hex-shorthand-vs-expanded", rec("    a: !vector {items: int, length: 0x10}\n"), rec("    a: int*0x10\n")),
+        ("type-in-single-quotes", rec("    a: int?\n"), rec("    a: 'int?'\n")),
+        ("type-as-block-scalar", rec("    a: int?\n"), rec("    a: |-\n      int?\n")),
+        ("enum-value-hex", "E: !enum\n  values:\n    a: 16\n" + rec("    a: E\n"), "E: !enum\n  values:\n    a: 0x10\n" + rec("    a: E\n")),
+        ("enum-base-alias", "E: !enum\n  base: uint64\n  values: [a]\n" + rec("    a: E\n"), "E: !enum\n  base: ulong\n  values: [a]\n" + rec("    a: E\n")),
+    ]
+
+
+def literal_part(chk, quick):
+    pairs = literal_pairs()
+    base = os.path.join(build.scratch(), "c13l")
+
+    def run(ij):
+        i, (name, which, text) = ij
+        root = os.path.join(base, "l%d" % i)
+        build.write_tree(root, {"m/_package.yml": "namespace: Lt\ncpp:\n  sourcesOutputDir: ../out/cpp\n  generateCMakeLists: false\npython:\n  outputDir: ../out/py\nmatlab:\n  outputDir: ../out/matlab\n",
+                                "m/model.yml": text})
+        rc, out, err = build.yardl(["generate"], cwd=os.path.join(root, "m"))
+        h = tree_hash(os.path.join(root, "out")) if rc == 0 else {}
+        shutil.rmtree(root, ignore_errors=True)
+        return rc, err, h
+    jobs = [(n, w, t) for n, a, b in pairs for w, t in (("reference", a), ("respelled", b))]
+    with ThreadPoolExecutor(build.NCPU) as ex:
+        res = list(ex.map(run, enumerate(jobs)))
+    for k, (name, a, b) in enumerate(pairs):
+        (rc0, err0, h0), (rc1, err1, h1) = res[2 * k], res[2 * k + 1]
+        chk.count()
+        chk.nontriv(hash(("literal", name)))
+        chk.outcome(("literal", rc0, rc1))
+        where = {"pair": name, "reference_model": a, "respelled_model": b, "reference_stderr": err0[-500:], "respelled_stderr": err1[-500:]}
+        if rc0 not in (0, 1) or rc1 not in (0, 1) or "panic:" in err0 + err1:
+            chk.fail("literal/crash/%s" % name, "yardl crashes on one spelling of pair %s: %s" % (name, (err0 + err1)[-300:]), where)
+        elif rc0 != rc1:
+            chk.fail("literal/verdict-differs/%s" % name, "pair %s: the reference spelling is %s, the respelled model is %s: %s" % (
+                name, "accepted" if rc0 == 0 else "rejected", "accepted" if rc1 == 0 else "rejected", (err1 if rc1 else err0).strip()[-300:]), where)
+        elif rc0 == 0 and h0 != h1:
+            diff = sorted(f for f in set(h0) | set(h1) if h0.get(f) != h1.get(f))
+            chk.fail("literal/generated-code-differs/%s" % name, "pair %s: both spellings are accepted but the generated files differ: %s" % (name, diff[:5]), dict(where, changed_files=diff[:20]))
+    chk.sample({"literal_pairs": [n for n, _, _ in pairs]})
+
+
 def respelled_version_part(chk, pkgs, quick):
     """A previous version that differs from the current model only in spelling is the same model: listing it under `versions:` must
     be accepted without any compatibility error or warning (old = base spelling, new = every site in its k-th alternative spelling,
@@ -447,6 +505,7 @@ def main(tier):
         pr1.close()
     verdict_part(chk, quick)
     respelled_version_part(chk, pkgs, quick)
+    literal_part(chk, quick)
     chk.sample({"rewrites": len(jobs), "sites": sum(len(sites(p)) for p in pkgs), "examples": [j[1] for j in jobs[:5]]})
     chk.assumptions += ["documentation comments (attached to an element) legitimately change generated docstrings and are not rewritten here",
                         "model.json is compared for pure syntax alternatives only (it records definition order)"]
